@@ -1,7 +1,7 @@
 (* C02: every transmitted frame passes the independent validator wf_tx; solicited only; junk independent; link to the buffer-level model.
    Statements only: each theorem restates the full type of a lemma proved in coq/proofs and is closed by
    `exact`; Print Assumptions beneath.  Regenerate with bin/genprops.py after a lemma changes. *)
-From LLTD Require Import BlockFun BlockNominal SystemRefinement SpecTx TxProofs.
+From LLTD Require Import BlockFun BlockNominal SystemRefinement SpecTx TxProofs BufferLevel.
 
 Theorem C02_every_frame_well_formed :
   forall (ctx : N) (c : pcfg) (g : gcfg) (mtu : N),
@@ -86,3 +86,64 @@ Theorem C02_registry_level_refines :
   BlockSafe.ledger_reg bl bb r' w' /\ w_now w' = w_now w.
 Proof. exact frame_nominal. Qed.
 Print Assumptions C02_registry_level_refines.
+
+Theorem C02_on_the_buffer_level_model :
+  forall (junk ctx : N) (c : pcfg) (g : gcfg) (mtu : N) (r : registry) (buf : list N)
+  (w : world) (bl : nat) (bb : N),
+  c_mtu c = Some mtu ->
+  (576 <= mtu)%N ->
+  (mtu <= 9216)%N ->
+  (mtu <= c_rxsize c)%N ->
+  length buf = o (c_rxsize c) ->
+  BlockSafe.ledger_reg bl bb r w ->
+  exists (r' : registry) (w' : world) (acts : list action),
+  parse_frame no_fail no_fail junk ctx c g r buf w = Ok r' w' /\
+  w_trace w' = rev acts ++ w_trace w /\
+  BlockSafe.ledger_reg bl bb r' w' /\
+  Forall (C02_act ctx c mtu) acts /\
+  (w_trace w' <> w_trace w ->
+  exists h : hdr,
+  parse_hdr buf = Some h /\
+  In (h_tos h, h_opc h) soliciting /\
+  sends acts <= (if (h_tos h =? 0)%N && (h_opc h =? 2)%N then o (h_w0 h) + 1 else 1)).
+Proof. exact C02_buffer_level. Qed.
+Print Assumptions C02_on_the_buffer_level_model.
+
+Theorem C02_every_history_every_interface_buffer_level :
+  forall (junk : N) (cfgs : N -> pcfg) (g : gcfg) (mtus : N -> N),
+  cfgs_nominal cfgs mtus ->
+  forall (l : list BlockSafe.fop) (r : registry) (w : world) (bl : nat) (bb : N),
+  Forall (fop_len cfgs) l ->
+  BlockSafe.ledger_reg bl bb r w ->
+  exists (r' : registry) (w' : world) (ta : list (N * action)),
+  BlockSafe.run_frames no_fail no_fail junk cfgs g r l w = Ok r' w' /\
+  ta = snd (Isolation.sys_run cfgs g mtus (reg_state r) (fframes l)) /\
+  w_trace w' = rev (map snd ta) ++ w_trace w /\
+  BlockSafe.ledger_reg bl bb r' w' /\
+  (forall (k : N) (a : action),
+  In (k, a) ta ->
+  C02_act k (cfgs k) (mtus k) a /\
+  (exists (buf : list N) (h : hdr),
+  In (BlockSafe.FFrame k buf) l /\ parse_hdr buf = Some h /\ In (h_tos h, h_opc h) soliciting)).
+Proof. exact C02_buffer_level_history. Qed.
+Print Assumptions C02_every_history_every_interface_buffer_level.
+
+Theorem C02_every_send_of_any_run :
+  forall (junk : N) (cfgs : N -> pcfg) (g : gcfg) (mtus : N -> N),
+  cfgs_nominal cfgs mtus ->
+  forall (l : list BlockSafe.fop) (r : registry) (w : world) (bl : nat) (bb : N),
+  Forall (fop_len cfgs) l ->
+  BlockSafe.ledger_reg bl bb r w ->
+  exists (r' : registry) (w' : world) (added : list action),
+  BlockSafe.run_frames no_fail no_fail junk cfgs g r l w = Ok r' w' /\
+  w_trace w' = added ++ w_trace w /\
+  BlockSafe.ledger_reg bl bb r' w' /\
+  (forall k n : N, ~ In (HelloTx k n) added) /\
+  (forall (k : N) (ok : bool) (fr : list N),
+  In (Send k ok fr) added ->
+  ok = true /\
+  wf_tx (mac_bytes (own (cfgs k))) (o (mtus k)) fr = true /\
+  (exists (buf : list N) (h : hdr),
+  In (BlockSafe.FFrame k buf) l /\ parse_hdr buf = Some h /\ In (h_tos h, h_opc h) soliciting)).
+Proof. exact C02_buffer_level_trace. Qed.
+Print Assumptions C02_every_send_of_any_run.
